@@ -454,8 +454,9 @@ func (m *Encoder) encodeTimeDate(v reflect.Value) error {
 
 // EncodeDecimal encodes an ion.Decimal to the output writer as an Ion decimal.
 func (m *Encoder) encodeDecimal(v reflect.Value) error {
-	d := v.Addr().Interface().(*Decimal)
-	return m.w.WriteDecimal(d)
+	// v need not be addressable (a Decimal passed or held by value).
+	d := v.Interface().(Decimal)
+	return m.w.WriteDecimal(&d)
 }
 
 // EncodeBigInt encodes a big.Int to the output writer as an Ion int.
